@@ -68,6 +68,7 @@ type Scenario struct {
 	DefTimeout bool             `json:"def_timeout,omitempty"` // Transfer.ReadTimeout is left at zero: the documented default of 2 s applies (read_timeout_ms is 2000)
 	QCase      bool             `json:"qcase,omitempty"`       // the zone is asked for in another letter case than the one the sender spells it in
 	LocalClose int              `json:"local_close,omitempty"` // the application closes the transfer's connection itself after taking this many envelopes
+	Big        int              `json:"big,omitempty"`         // axfr / ixfr-axfr: the envelope that holds the second record of the zone is filled up with TXT records until its message - as the sender builds it, unsigned TSIG stub included - is 65535 + Big - 1000 octets long (Big 1000: exactly what a stream can frame before the MAC is added; 0 = off)
 }
 
 const (
@@ -269,6 +270,11 @@ func Gen(seed uint64, tier string) any {
 	if core.Chance(r, 10) {
 		sc.LocalClose = 1 + r.IntN(3)
 	}
+	if (sc.Kind == "axfr" || sc.Kind == "ixfr-axfr") && !sc.AllCuts && !sc.Twin && core.Chance(r, 4) {
+		// one envelope at the edge of what a stream can frame: one octet more and it cannot be sent, and a MAC
+		// of 20 .. 64 octets has yet to be added to it
+		sc.Big = 1000 + core.Pick(r, 0, 0, -1, 1, 2, -10, -19, -20, -21, -27, -28, -29, -31, -32, -33, -47, -48, -49, -63, -64, -65, -66, -100, -700)
+	}
 	if sc.TimeoutMs != 2000 {
 		sc.DefTimeout = false
 	}
@@ -358,6 +364,7 @@ func Shrink(x any) []any {
 	num(func(n *Scenario) *int { return &n.CutAt })
 	num(func(n *Scenario) *int { return &n.ConsumerMs })
 	num(func(n *Scenario) *int { return &n.PaceMs })
+	num(func(n *Scenario) *int { return &n.Big })
 	if sc.Sender == "out" {
 		n := cp()
 		n.Sender = "scripted"
@@ -469,7 +476,55 @@ func envelopes(sc *Scenario) [][]dns.RR {
 			start = c
 		}
 	}
-	return append(out, seq[start:])
+	out = append(out, seq[start:])
+	if sc.Big > 0 && len(seq) >= 2 && !sc.BadFirst {
+		e := 0
+		if len(out[0]) < 2 {
+			e = 1
+		}
+		pads := padTo(out[e], 65535+sc.Big-1000, sc)
+		if e == 0 {
+			out[0] = append(append(append([]dns.RR(nil), out[0][:1]...), pads...), out[0][1:]...)
+		} else {
+			out[1] = append(append([]dns.RR(nil), pads...), out[1]...)
+		}
+	}
+	return out
+}
+
+// padTo returns TXT records that bring the message a sender makes of rrs - reply to the transfer's question,
+// records in the answer section, uncompressed, the unsigned TSIG stub when the transfer is signed - to want octets.
+// (Only the size of the workload hangs on this arithmetic, no verdict does.)
+//
+//go:norace
+func padTo(rrs []dns.RR, want int, sc *Scenario) []dns.RR {
+	m := new(dns.Msg)
+	m.SetQuestion(zone, dns.TypeAXFR)
+	m.Response, m.Authoritative = true, true
+	m.Answer = rrs
+	if sc.Alg != "" && sc.ClientKey && sc.ServerKey {
+		m.SetTsig(keyName, sc.Alg, uint16(max(sc.Fudge, 1)), 0)
+	}
+	need := want - m.Len()
+	owner := func(i int) string { return fmt.Sprintf("pad%03d.", i) + zone }
+	over := len(owner(0)) + 1 + 10 + 1 // owner on the wire, fixed part of the record, one length octet
+	var pads []dns.RR
+	for n := 1; n < 400; n++ {
+		payload := need - n*over
+		if payload < 0 {
+			break
+		}
+		if payload > 255*n {
+			continue
+		}
+		for i := 0; i < n; i++ {
+			l := min(payload, 255)
+			payload -= l
+			pads = append(pads, &dns.TXT{Hdr: dns.RR_Header{Name: owner(i), Rrtype: dns.TypeTXT, Class: dns.ClassINET, Ttl: 300}, Txt: []string{strings.Repeat(string(rune('a'+i%26)), l)}})
+		}
+		break
+	}
+	return pads
 }
 
 // ---------------------------------------------------------------- run
@@ -766,6 +821,10 @@ func (s *scriptedTask) RunEvent(time.Time) {
 				prior = append([]byte(nil), t.MAC...)
 			}
 		}
+		if len(b) > 65535 {
+			k.Bump("fault.sender_cannot_frame_envelope")
+			return // more than a stream can frame: this sender stops here (the receiver sees a transfer that never ends)
+		}
 		if _, err := c.Write(oracle.Frame(b)); err != nil {
 			return
 		}
@@ -940,6 +999,9 @@ func (w *foreignWriter) Close() error { return w.c.Close() }
 
 //go:norace
 func (w *foreignWriter) Write(b []byte) (int, error) {
+	if len(b) > 65535 {
+		return 0, errors.New("foreign writer: message does not fit a stream frame")
+	}
 	if _, err := w.c.Write(oracle.Frame(b)); err != nil {
 		return 0, err
 	}
@@ -1213,6 +1275,9 @@ func runIn(sc *Scenario, res *core.Result, verbose bool) {
 		n.CloseErr = "cli" // closing the receiver's connection reports an error (it is closed all the same)
 	}
 	x := &run{sc: sc, k: k, n: n, res: res, qid: uint16(4000 + sc.RunSeed%1000)}
+	if sc.Big > 0 {
+		res.Bump("fault.envelope_at_frame_limit")
+	}
 	cli, relayC := n.Pair(true)
 	x.cliConn = cli
 	var relayS *simnet.StreamConn
